@@ -84,9 +84,6 @@ known("C03", r"^asm_layout\|pcr[+-]c/\w+/(fwd|bwd)/[^|]*\|(C03:target|C03:accept
 known("C03", r"^asm_layout\|pcr-multi/\w+\|(C03:target|C02:\w+)\|pcr-multi/\w+:(wrong-target|size!=len|listing-address)",
       "several PCR statements: backward boundary case chooses the 8-bit form for a displacement below -128",
       {"asm": ["T NOP", "U NOP", " RMB 124", "A LDA [T,PCR]", " RMB 0", "B LDY U,PCR"]}, also=("C02",))
-known("C03", r"^asm_layout\|rel(8|16)/[^|]*\|(C03:accepted|C13:no-internal-error)\|rel:\w+:\w+:(rejected|escape):?\w*",
-      "branch in a program that runs past $FFFF: ValueTypeError escapes instead of a diagnostic", {"asm": [" ORG $FFFF", " BRA T", "T NOP"]},
-      also=("C13",))
 
 # ------------------------------------------------------------------------------------------------ expressions / symbols (C04)
 known("C04", r"^asm_expr\|(imm8|imm16|mem|mem16|jmp|extind|idx|idx16)/[^|]*\|(C02:size|C04:value)\|[^|]*:(size=\d,len=\d|undecodable:[^|]*)",
@@ -130,12 +127,8 @@ known("C13", r"^asm_data\|empty/(FCB|FDB|FCC|RMB|ORG|EQU)\|C13:no-internal-error
       "a data directive without operand raises ValueTypeError / IndexError instead of a diagnostic", {"asm": [" FCB"]}, also=("C05",))
 known("C05", r"^asm_data\|silent/END\|(C13:no-internal-error|C05:accepted)\|silent/END:(escape:\w+|rejected:\w+)",
       "END without operand is not accepted (escapes as ValueTypeError)", {"asm": [" NOP", " END"]}, also=("C13",))
-known("C05", r"^asm_data\|RMB/emit/\d+\|(C05:rmb-zero-bytes|C13:\S+)\|", "RMB n does not emit exactly n zero bytes for some n",
-      {"asm": [" RMB 0"]})
 
 # ------------------------------------------------------------------------------------------------ special operands
-known("C12", r"^asm_special\|reg(list|pair)/\w+/invalid\|(C12:rejected|C12:wellformed|C13:no-internal-error)\|",
-      "malformed register lists / pairs are accepted or crash", {"asm": [" PSHS A,,B"]}, also=("C13",))
 
 # ------------------------------------------------------------------------------------------------ termination / internal errors
 known("C13", r"^asm_layout\|abs/LDA,X/[^|]*\|C13:no-internal-error\|abs/LDA,X:\w+:\w+:escape:IndexError",
@@ -161,8 +154,6 @@ known("C07", r"^disk_layout\|(write|multi|foreign)/[^|]*\|C07:(roundtrip|foreign
 known("C15", r"^disk_layout\|write/ML/len\d+/\w+\|C15:stored\|write/ML/len%2304=\d+/\w+:writer-raised:VirtualFileValidationError",
       "writing a file whose trailer straddles the last physical granule of the image fails with `Not enough bytes to write postamble`",
       {"files": "disk: ML file of 2295 bytes, reversed fill order"}, also=("C07",))
-known("C15", r"^disk_layout\|fill/\w+\|C15:(fits-is-stored|granules-used|overfull-fails)\|", "fill-to-full history miscounts space",
-      {"files": "disk: 72 one-byte files"})
 known("C09", r"^vfile_history\|sniff/cas-big-(zero|ff|mixed)\|C09:kind-recognised\|sniff/[\w-]+:(raised:\w+|recognised-as:\w+)",
       "a cassette image of 161,280 bytes or more is tried as a disk image first; UnicodeDecodeError (not caught) escapes or the "
       "disk reader returns garbage, so the image cannot be re-opened as a cassette",
@@ -186,8 +177,6 @@ known("C16", r"^cli_fileutil\|fu/[^|]*/with-empty/all\|C16:converted\|", "conver
 known("C16", r"^cli_fileutil\|fu/(dsk-to-\w+|chain/[\w-]+|[^|]*three[^|]*)[^|]*\|(C16:converted|C16:chain|C16:selection)\|",
       "conversions through a disk image fail for files whose trailer straddles a granule or whose name needs normalising",
       {"cli": "file_util.py host.dsk --to_cas out.cas"}, also=("C07",))
-known("C16", r"^cli_fileutil\|fu/\w+-to-bin/empty-image\|(C16:to-bin-empty-diagnostic|C13:cli-no-traceback)\|",
-      "--to_bin on an image without files reports an IndexError text instead of a diagnostic", {"cli": "file_util.py empty.cas --to_bin x.bin"})
 known("C19", r"^include\|missing-file\|C19:missing-file-is-diagnostic\|missing-file:escape:FileNotFoundError",
       "INCLUDE of a missing file escapes as FileNotFoundError (a traceback) instead of a diagnostic", {"asm": [" INCLUDE nothere.asm"]},
       also=("C13",))
